@@ -149,7 +149,7 @@ def run(ctx, args):
         items.append((f"gen:{i}", A.pp(g.program())))
     # (d) the optimiser small-scope family (both levels are compiled: an IR pass must not fail on an accepted program)
     import optfamily
-    items += [("opt:" + name, A.pp(prog)) for name, prog in optfamily.programs(3)]
+    items += [("opt:" + name, A.pp(prog)) for name, prog in (optfamily.quick_family(ctx.seed) if quick else optfamily.programs(3))]
     with mp.Pool(16) as pool:
         recs = [r for part in pool.map(work, [items[i:i + 40] for i in range(0, len(items), 40)]) for r in part]
     if any(r.get("hook_ok") is False for r in recs):
